@@ -1429,6 +1429,16 @@ fn gen_will_case(ch: &mut Choices) -> WillCase {
         frames.push((f, false));
     }
     match ch.pick(3) {
+        // MQTT 5 knows three encodings of a normal DISCONNECT: no body, reason code
+        // only (property length then counts as 0), reason code + empty properties
+        0 if wv5 => frames.push((
+            match ch.pick(3) {
+                0 => disconnect_bytes(),
+                1 => vec![0xe0, 0x01, 0x00],
+                _ => vec![0xe0, 0x02, 0x00, 0x00],
+            },
+            true,
+        )),
         0 => frames.push((disconnect_bytes(), true)),
         1 => frames.push((ack_bytes(wv5, 0, 65535), false)), // protocol error: the router closes
         _ => {}
